@@ -725,7 +725,7 @@ class Interp(object):
     def find_spec(self, node):
         fn = self.fn_stack[-1] if self.fn_stack else '?'
         for (qn, ordinal), spec in self.loop_specs.items():
-            if qn == fn or fn.endswith(qn) or qn.endswith(fn):
+            if qn == fn or fn.endswith(qn) or qn.endswith(fn) or fn.startswith(qn + '.<locals>'):
                 try:
                     _, fnode, _ = self.program.find(qn) if '<locals>' not in qn else (None, None, None)
                 except Unsupported:
@@ -739,6 +739,30 @@ class Interp(object):
 
     def s_For(self, node, env):
         src = self.eval(node.iter, env)
+        if isinstance(src, bi.GenObj) and src.items is None and not any(isinstance(n, (ast.Break, ast.Return)) for n in ast.walk(node)):
+            # `for x in gen(...)`: run the generator's body in place; at each of its yields run this loop's body with
+            # the target bound to the yielded value (so contracted loops inside the generator compose with this one)
+            outer_hook = self.yield_hook
+
+            def on_inner_yield(v, ynode):
+                saved = self.yield_hook
+                self.yield_hook = outer_hook
+                try:
+                    self.assign(node.target, v, env)
+                    try:
+                        self.exec_block(node.body, env)
+                    except _Continue:
+                        pass
+                finally:
+                    self.yield_hook = saved
+            self.yield_hook = on_inner_yield
+            try:
+                self.run_body(src.fn, src.env)
+            finally:
+                self.yield_hook = outer_hook
+            src.items = []
+            self.exec_block(node.orelse, env)
+            return
         it = bi.get_iter(self, src, node)
         spec = self.find_spec(node)
         if spec is None and bi.is_concrete_iter(it):
@@ -818,7 +842,7 @@ class Interp(object):
         if getattr(base, 'table', None) is not None and getattr(self, 'check_pulls', True):
             ctx.oblige('%s: before the first data row is requested at most the header row has been pulled' % label,
                        k0 <= 1, self.where(node), 'pull')
-        for t in (getattr(ctx, 'tables', []) if getattr(self, 'check_pulls', True) else []):
+        for t in (getattr(ctx, 'tables', []) if getattr(self, 'check_pulls', True) and getattr(ctx, 'in_iteration', None) is None else []):
             for other in getattr(t, 'iterators', []):
                 if other is not base and not getattr(other, 'pull_checked', False) and not getattr(other, 'looped', False):
                     other.pull_checked = True
